@@ -19,7 +19,7 @@ const TOL: f64 = 1e-7;
 
 /// reduced-unit comparison of two two-phase equilibria: worst of T, p (abs+rel), the
 /// densities and the compositions of both phases
-fn pe_dev(a: &PhaseEquilibrium<Model, 2>, b: &PhaseEquilibrium<Model, 2>) -> f64 {
+pub fn pe_dev(a: &PhaseEquilibrium<Model, 2>, b: &PhaseEquilibrium<Model, 2>) -> f64 {
     let mut worst = 0.0f64;
     for (x, y) in [(a.vapor(), b.vapor()), (a.liquid(), b.liquid())] {
         worst = worst.max((x.temperature.to_reduced() / y.temperature.to_reduced() - 1.0).abs());
@@ -34,7 +34,7 @@ fn pe_dev(a: &PhaseEquilibrium<Model, 2>, b: &PhaseEquilibrium<Model, 2>) -> f64
 }
 
 /// phases closer than 1e-3 in every partial density: a collapsed (near-trivial) solution
-fn near_trivial(a: &PhaseEquilibrium<Model, 2>) -> bool {
+pub fn near_trivial(a: &PhaseEquilibrium<Model, 2>) -> bool {
     a.vapor()
         .partial_density
         .to_reduced()
@@ -43,7 +43,7 @@ fn near_trivial(a: &PhaseEquilibrium<Model, 2>) -> bool {
         .all(|(x, y)| (x / y - 1.0).abs() < 1e-3)
 }
 
-fn pe_json(a: &PhaseEquilibrium<Model, 2>) -> Value {
+pub fn pe_json(a: &PhaseEquilibrium<Model, 2>) -> Value {
     json!({"T": a.vapor().temperature.to_reduced(), "p_v": a.vapor().pressure(Contributions::Total).to_reduced(), "p_l": a.liquid().pressure(Contributions::Total).to_reduced(),
         "rho_v": a.vapor().density.to_reduced(), "rho_l": a.liquid().density.to_reduced(), "x_v": a.vapor().molefracs.to_vec(), "x_l": a.liquid().molefracs.to_vec()})
 }
